@@ -207,6 +207,8 @@ def model_obs(case: dict, resp: list) -> list:
     vid_of = {k: vid for k, vid, _ in keys}
     out = []
     prev_tmp = {k: "absent" for k, _, _ in keys}
+    prev_fin = {k: "absent" for k, _, _ in keys}
+    order = [k for k, _, _ in keys]
     for step, r in zip(case["script"], resp):
         fin = []
         for k, f in r["fs"]["final"]:
@@ -216,8 +218,20 @@ def model_obs(case: dict, resp: list) -> list:
                 w, p = f
                 fin.append([k, "full" if (w == vid_of[k] and p >= sizes[w]) else ["prefix", p]])
         tmp = dict((k, f) for k, f in r["fs"]["tmp"])
-        strays = sorted(f[1] for k, f in tmp.items() if f != "absent" and f != prev_tmp[k])
+        # temporaries written DURING this step.  The model has one temporary per key (the real name carries the pid),
+        # so a victim that re-creates the very same state is recognised by "it reached its save": no result file yet,
+        # killed after the open (and, sequentially, no earlier key stopped the run)
+        rewrote = set()
+        if step[0] != "run":
+            for k, c in step[3].items():
+                reached = prev_fin[k] == "absent" and c >= 1
+                if step[0] == "seqcrash":
+                    reached = reached and not any(isinstance(prev_fin[e], list) for e in order[: order.index(k)])
+                if reached:
+                    rewrote.add(k)
+        strays = sorted(f[1] for k, f in tmp.items() if f != "absent" and (f != prev_tmp[k] or k in rewrote))
         prev_tmp = tmp
+        prev_fin = dict((k, st) for k, st in fin)
         o = {"fs": {"final": fin, "strays": strays}}
         if step[0] == "run":
             o["out"] = r["out"]
